@@ -215,8 +215,7 @@ func (st *State) assertProp(c *Term, label string) {
 		}
 		r.obl.Add(1)
 		r.report(st, Violation{Kind: "assert", Label: label})
-		st.status = Killed
-		abort()
+		return // the run continues past the failed assertion (as the native harness would not, but later witnesses stay reachable)
 	}
 	r.obl.Add(1)
 	res, m := st.w.solver.Check(st.pc, Not(c), true)
